@@ -33,11 +33,14 @@ var probeRealms = []string{"", "\x01", "\x01\xff", "\x01", "\x02", ""}
 
 // genProbePlan: header + one line per call: `x p <goroutine> <view> <kind> <hexkey>`; the key is relative to the view.
 func genProbePlan(rng *hx.Rng, wrap, g, perG, rounds int) []string {
-	plan := []string{fmt.Sprintf("x probe wrap=%d goroutines=%d rounds=%d", wrap, g, rounds)}
+	// every goroutine keeps to ONE view object for most of its calls (a lock that protects only "its" view is then not
+	// enough to protect the map); the goroutines are spread over `homes` of the six objects: with 1..3 homes many goroutines
+	// use the SAME object at the same time (whatever a view keeps per object besides its lock is then shared by them)
+	homes := hx.Pick(rng, []int{1, 2, 3, len(probeRealms), len(probeRealms)})
+	first := rng.Intn(len(probeRealms))
+	plan := []string{fmt.Sprintf("x probe wrap=%d goroutines=%d rounds=%d homes=%d", wrap, g, rounds, homes)}
 	for i := 0; i < g; i++ {
-		// every goroutine keeps to ONE view object for most of its calls: a lock that protects only "its" view is then not
-		// enough to protect the map
-		home := i % len(probeRealms)
+		home := (first + i%homes) % len(probeRealms)
 		for j := 0; j < perG; j++ {
 			view := home
 			if rng.Chance(1, 5) {
@@ -239,19 +242,19 @@ func probeChild(planFile string) {
 
 var frameRe = regexp.MustCompile(`hive\.go/kvstore[\w/]*\.(\(\*?\w+\)\.)?\w+`)
 
-// runProbe executes the plan in a child process; returns true when the child died (finding recorded).
-func runProbe(r *hx.Run, sub uint64, plan []string, no int) bool {
+// runProbe executes the plan in a child process; returns true when the child died (finding recorded) and the oracle that failed.
+func runProbe(r *hx.Run, sub uint64, plan []string, no int) (bool, string) {
 	self, err := os.Executable()
 	if err != nil {
 		r.Count("probe-skipped-no-executable")
 
-		return false
+		return false, ""
 	}
 	pf := fmt.Sprintf("%s/probe-plan-%d.txt", r.OutDir, no)
 	if err := os.WriteFile(pf, []byte(strings.Join(plan, "\n")+"\n"), 0o644); err != nil {
 		r.Count("probe-skipped-plan-not-written")
 
-		return false
+		return false, ""
 	}
 	cmd := exec.Command(self)
 	cmd.Env = append(os.Environ(), "C05_PROBE_CHILD="+pf, "GORACE=halt_on_error=1 exitcode=66")
@@ -260,7 +263,7 @@ func runProbe(r *hx.Run, sub uint64, plan []string, no int) bool {
 	r.CountN("probe-child-ms", int(time.Since(t0).Milliseconds()))
 	r.Count("probe-children")
 	if err == nil {
-		return false
+		return false, ""
 	}
 	text := string(out)
 	oracle, msg := "no-fatal-error", "child exited: "+err.Error()
@@ -292,5 +295,5 @@ func runProbe(r *hx.Run, sub uint64, plan []string, no int) bool {
 	r.Line("end", "accept")
 	r.Count("probe-child-died")
 
-	return true
+	return true, oracle
 }
